@@ -141,7 +141,8 @@ def connectivity_checks(tag, v1, order, v2, st2, out, info):
             if len(cur) > 1:
                 want_segments.append(cur)
         got_segments = [[(str(r.chain_id).strip(), r.residue_number, r.insertion_code) for r in seg] for seg in st2.connected_residues]
-        if sorted(map(tuple, got_segments)) != sorted(map(tuple, want_segments)):
+        total = lambda seg: [(c, n, i or "") for c, n, i in seg]  # a total order whatever the insertion codes are
+        if sorted(map(tuple, got_segments), key=total) != sorted(map(tuple, want_segments), key=total):
             out.append(D(f"C15:{tag}:segments", f"connected segments {got_segments[:3]} vs expected {want_segments[:3]}"))
 
 
